@@ -119,6 +119,12 @@ async def run_asyncio(case):
                     await W.call(["fn", case.get("warm_fn", 0)])
                 except BaseException:  # noqa
                     pass
+                # the objects are constructed by the creator, at the top level of its context
+                for o in sorted(W.O):
+                    try:
+                        W.O[o].__init__()
+                    except BaseException:  # noqa
+                        pass
             i = n
             n += 1
             W.gates[i] = {"resume": asyncio.Event(), "arrived": asyncio.Event()}
@@ -179,6 +185,11 @@ def run_threads(case):
                     W.call(["fn", case.get("warm_fn", 0)])
                 except BaseException:  # noqa
                     pass
+                for o in sorted(W.O):
+                    try:
+                        W.O[o].__init__()
+                    except BaseException:  # noqa
+                        pass
             i = n
             n += 1
             W.gates[i] = {"resume": threading.Event(), "arrived": threading.Event()}
